@@ -118,9 +118,9 @@ Print Assumptions C06_binop_permutation_invariant.
 
 (* TypeBlocks.resize_blocks (Frame.reindex, hence the alignment of every Frame operator) does not depend on
    the block layout: for EVERY partition of the columns into 1-D / 2-D blocks, any cell type, fill value
-   and coercion, the re-indexed blocks flatten to a function of the flattened columns alone -- on
-   [resize_dom], i.e. everywhere except the both-axes branch with exactly one axis without a common
-   label (Refuted/C06.v: there the layout decides between IndexError, ValueError and a positional copy). *)
+   and coercion, the re-indexed blocks flatten to a function of the flattened columns alone.
+   (Unconditional since fix 658b4ce; before it the both-axes branch with exactly one axis without a common
+   label decided between IndexError, ValueError, TypeError and a positional copy depending on the layout.) *)
 Theorem C06_resize_blocks_layout_independent :
   forall (V : Type) (fill : V) (castf : dtype -> V -> V) (fdt : dtype -> dtype) (fill_dtype : dtype)
          (t : list (blk V)) nrows ic cc,
@@ -129,7 +129,6 @@ Theorem C06_resize_blocks_layout_independent :
   | Some c => wf_ic c /\ Forall (fun s => (s < length (flatten V t))%nat) (ic_src c)
   | None => True
   end ->
-  resize_dom ic cc = true ->
   exists t', M_resize_blocks V fill castf fdt fill_dtype t nrows ic cc = Ok t' /\
              flatten V t' = S_resize_cols V fill castf fdt fill_dtype (flatten V t) nrows ic cc.
 Proof. exact resize_blocks_layout_independent. Qed.
@@ -139,8 +138,7 @@ Print Assumptions C06_resize_blocks_layout_independent.
    IndexCorrespondence on each axis (common labels by intersect1d in any order, through every shortcut) ->
    resize_blocks over ANY block layout.  The flattened result is the (row label, column label) lookup of
    the specification: kept columns hold, per destination row label, the source's cell or the fill value;
-   absent columns are fill columns.  Guard [frame_dom]: when both axes are re-indexed, either both keep a
-   label or neither does (outside it: finding C06-resize-both-axes-one-sided-no-common, Refuted/C06.v). *)
+   absent columns are fill columns. *)
 Theorem C06_frame_reindex_every_layout_is_label_lookup :
   forall (A V : Type) (eqb leb : A -> A -> bool) (sortable : list A -> bool),
   (forall x y, eqb x y = true <-> x = y) ->
@@ -150,7 +148,6 @@ Theorem C06_frame_reindex_every_layout_is_label_lookup :
   (forall d, new_index = Some d -> NoDup d) -> (forall d, new_columns = Some d -> NoDup d) ->
   length (flatten V t) = length columns ->
   Forall (fun c : col V => length (snd c) = length index) (flatten V t) ->
-  frame_dom A eqb index columns new_index new_columns = true ->
   exists t', M_frame_reindex_g A V eqb leb sortable fill castf fdt fill_dtype objpath_i objpath_c
                index columns t new_index new_columns = Ok t' /\
              flatten V t' = S_frame_reindex A V eqb fill castf fdt fill_dtype index columns (flatten V t)
